@@ -7,6 +7,8 @@
 //   RL : RL(cap,hist); put(c) -> true if the byte ended a line; linecpy(dst,max); newline_reset();
 //        len(); cursor(); data(); privkey(); indices_ok(why)
 //   VT : VT(cap,hist,Sink*); feed(c); init_step(); len(); cursor(); data(); privkey(); indices_ok(why)
+//   RL and VT carry `public_only` (the C++ flavour built with -DC15_PUBLIC_ONLY after a rename of
+//   private members, see build.sh) and VT `has_line` (false when the terminal's line cannot be read).
 #pragma once
 #include "c15_ref.hpp"
 #include "mc.hpp"
@@ -339,6 +341,21 @@ namespace c15
         return p[i];
     }
 
+    // Fallback key (public_only): the hidden part of the implementation state (decoder state,
+    // pairing byte, browse index) cannot be read, so states are merged only when the reference
+    // state AND the last bytes typed agree - the hidden fields are set by the most recent input.
+    static const int FALLBACK_SUFFIX = 2;
+    inline void append_recent(std::string &k, unsigned recent)
+    {
+        k += '~';
+        for (int i = FALLBACK_SUFFIX - 1; i >= 0; i--)
+        {
+            unsigned b = (recent >> (8 * i)) & 0xff; // two printable characters per byte
+            k += (char)('@' + b % 64);
+            k += (char)('@' + b / 64);
+        }
+    }
+
     struct Where
     {
         unsigned cap, hist;
@@ -354,6 +371,7 @@ namespace c15
         ref::Editor rf;
         const std::vector<Sym> *symp;
         const std::string &pre;
+        unsigned recent = 0; // last bytes typed (fallback key only)
 
         ReadlineModel(unsigned cap_, unsigned hist_, bool /*keylevel*/ = false)
             : cap(cap_), hist(hist_), rl(cap_, hist_), pre(prefix(RL::flavour(), "readline"))
@@ -367,6 +385,7 @@ namespace c15
         bool step(unsigned char c) // false: a violation was reported
         {
             int dec_before = rf.dec;
+            recent = (recent << 8) | c;
             bool nl = rl.put((char)c);
             ref::Ev ev = rf.feed((char)c);
             const char *cls = ref::evclass(rf, ev);
@@ -451,6 +470,8 @@ namespace c15
             rl.privkey(k);
             k += '#';
             k += rf.key();
+            if (RL::public_only)
+                append_recent(k, recent);
             return k;
         }
     };
@@ -483,6 +504,7 @@ namespace c15
         ref::Editor rf;
         const std::vector<Sym> *symp;
         const std::string &pre;
+        unsigned recent = 0; // last bytes typed (fallback key only)
 
         VtermModel(unsigned cap_, unsigned hist_, bool keylevel)
             : cap(cap_), hist(hist_), vt(cap_, hist_, &sink), pre(prefix(VT::flavour(), "vterm"))
@@ -499,6 +521,7 @@ namespace c15
         bool step(unsigned char c) // false: a violation was reported
         {
             int dec_before = rf.dec;
+            recent = (recent << 8) | c;
             sink.exec.clear();
             sink.echoed.clear();
             vt.feed(c);
@@ -539,33 +562,39 @@ namespace c15
                               vis(sink.exec[0]).c_str());
                 return false;
             }
-            // (c) bounds
-            unsigned len = vt.len(), cur = vt.cursor();
-            if (!(cur <= len && len < cap))
-            {
-                mc::violation(pre + "bounds." + cls, "%s: len=%u cursor=%u violates 0<=cursor<=len<cap", w.str().c_str(), len, cur);
-                return false;
-            }
             std::string why;
             if (!vt.indices_ok(&why))
             {
                 mc::violation(pre + "hist_index." + cls, "%s: %s", w.str().c_str(), why.c_str());
                 return false;
             }
-            // line and cursor against the reference editor
-            std::string text(vt.data(), len);
-            if (text != rf.line.s)
+            if constexpr (VT::has_line)
             {
-                mc::violation(pre + "line." + cls, "%s: line is '%s', reference '%s'", w.str().c_str(), vis(text).c_str(),
-                              vis(rf.line.s).c_str());
-                return false;
+                // (c) bounds
+                unsigned len = vt.len(), cur = vt.cursor();
+                if (!(cur <= len && len < cap))
+                {
+                    mc::violation(pre + "bounds." + cls, "%s: len=%u cursor=%u violates 0<=cursor<=len<cap", w.str().c_str(), len,
+                                  cur);
+                    return false;
+                }
+                // line and cursor against the reference editor
+                std::string text(vt.data(), len);
+                if (text != rf.line.s)
+                {
+                    mc::violation(pre + "line." + cls, "%s: line is '%s', reference '%s'", w.str().c_str(), vis(text).c_str(),
+                                  vis(rf.line.s).c_str());
+                    return false;
+                }
+                if (cur != rf.line.cur)
+                {
+                    mc::violation(pre + "cursor." + cls, "%s: line '%s' cursor=%u, reference cursor=%u", w.str().c_str(),
+                                  vis(text).c_str(), cur, rf.line.cur);
+                    return false;
+                }
             }
-            if (cur != rf.line.cur)
-            {
-                mc::violation(pre + "cursor." + cls, "%s: line '%s' cursor=%u, reference cursor=%u", w.str().c_str(), vis(text).c_str(),
-                              cur, rf.line.cur);
-                return false;
-            }
+            // (without has_line the line and the cursor are observed through the screen row below and
+            // through the execute callback only)
             // (b) echo replayed on the screen model
             if (!sink.scr.bad.empty())
             {
@@ -612,16 +641,21 @@ namespace c15
         // every stored state the screen is a function of the reference state.
         std::string key() override
         {
-            unsigned len = vt.len();
             std::string k;
             k.reserve(96);
-            k.assign(vt.data(), len <= cap ? len : cap);
-            k += '|';
-            k += (char)('0' + len);
-            k += (char)('0' + vt.cursor());
+            if constexpr (VT::has_line)
+            {
+                unsigned len = vt.len();
+                k.assign(vt.data(), len <= cap ? len : cap);
+                k += '|';
+                k += (char)('0' + len);
+                k += (char)('0' + vt.cursor());
+            }
             vt.privkey(k);
             k += '#';
             k += rf.key();
+            if (VT::public_only)
+                append_recent(k, recent);
             return k;
         }
     };
